@@ -167,6 +167,13 @@ func PlayMode(beh M, rng *rand.Rand, proj *Projection, mode int) ([]M, error) {
 				runtime.ReadMemStats(&after)
 				x.Log.Append(mem.Ev{"k": "x-alloc", "conn": conn.ID, "bytes": capInt(after.TotalAlloc - before.TotalAlloc), "sent": len(b), "limit": x.EffLimit()})
 			}
+		case "elapse":
+			// an hour goes by with the connection idle: nothing a finished command left behind (a deadline still
+			// armed on the connection, say) may end it or disturb what follows
+			if conn.IsIdle() {
+				conn.Elapse(time.Hour)
+				wait()
+			}
 		case "eof":
 			conn.CloseClient()
 			if err := conn.WaitClosed(WaitTimeout); err != nil {
